@@ -11,10 +11,12 @@ import Drivers.Common
   clispec <TAB> <input>                                               → fail=<0|1> diag=<0|1> out=<m,m,…>
 
   graph  : classes `name:ext|-:impl,impl;…` `|` interfaces `name:ext,ext;…`
-  prog   : space separated tokens  e<m>  t<cls>.<site>  rt  gp  r<v>  b  c  l<k>{ … }  f{ … }
+  prog   : [n<depth>] <block> [ || <block of g0> [ || <block of g1> … ]]
+  block  : space separated tokens  e<m>  t<cls>.<site>  rt  gp  r<v>  b  c  l<k>{ … }  f{ … }  g<k>
            y<i>{ … } [k<ty>,<ty>{ … }]* [F{ … }] ;
   input  : missing | parse | s:<e<m>|ob|oc , …>:<normal|uncaught|exit<n>|late|panic>
   trace  : T<i>; F<i>; C<i>.<k>:<class>:<site>; C<i>.<k>:internal; m<n>; R<v>; R-;
+           (try ids and markers printed as <level of the activation> * 1000 + <number>, the way the scripts print them)
 -/
 open Model.Exc Model.Hier
 
@@ -72,6 +74,7 @@ partial def parseStmt : List String → Option (Stmt × List String)
     else if t == "f{" then do
       let (b, rest) ← parseBlock rest
       some (.call b, rest)
+    else if t.startsWith "g" then (nat? (inner t 1 false)).map (fun k => (.callf k, rest))
     else if t.startsWith "e" then (nat? (inner t 1 false)).map (fun m => (.echo m, rest))
     else if t.startsWith "r" then (nat? (inner t 1 false)).map (fun v => (.ret v, rest))
     else if t.startsWith "t" then
@@ -109,21 +112,40 @@ partial def parseCatches : List String → Option (Catches × List String)
   | [] => some (.nil, [])
 end
 
-def parseProg (s : String) : Option Block :=
-  let toks := (s.splitOn " ").filter (fun t => !t.isEmpty)
+def parseWhole (toks : List String) : Option Block :=
   match parseBlock toks with
   | some (b, []) => some b
   | _ => none
+
+/-- split the token list at the `||` separators -/
+def splitFns (toks : List String) : List (List String) :=
+  toks.foldr (fun t acc =>
+    match acc with
+    | cur :: rest => if t == "||" then [] :: cur :: rest else (t :: cur) :: rest
+    | [] => [[t]]) [[]]
+
+def parseProg (s : String) : Option Prog :=
+  let toks := (s.splitOn " ").filter (fun t => !t.isEmpty)
+  let (depth, toks) :=
+    match toks with
+    | t :: rest => if t.startsWith "n" then ((nat? (inner t 1 false)), rest) else (some 0, toks)
+    | [] => (some 0, [])
+  match depth, splitFns toks with
+  | some d, main :: fns => do
+    let m ← parseWhole main
+    let fs ← fns.mapM parseWhole
+    some ⟨fs, m, d⟩
+  | _, _ => none
 
 def showThrown : Thrown → String
   | .obj n s => s!"{n}:{s}"
   | .internal => "internal"
 
 def showEv : Ev → String
-  | .enterTry i => s!"T{i};"
-  | .enterFinally i => s!"F{i};"
-  | .caught i k t => s!"C{i}.{k}:{showThrown t};"
-  | .echo m => s!"m{m};"
+  | .enterTry a i => s!"T{tag a i};"
+  | .enterFinally a i => s!"F{tag a i};"
+  | .caught a i k t => s!"C{tag a i}.{k}:{showThrown t};"
+  | .echo a m => s!"m{tag a m};"
   | .result (some v) => s!"R{v};"
   | .result none => "R-;"
 
